@@ -363,7 +363,26 @@ pub fn stuck_when_run_last(scn: &Arc<Scenario>) -> Option<(Vec<(usize, usize)>, 
         for k in 1..=order.len() {
             if matches!(run_serial(scn.clone(), order[..k].to_vec()), SerialOutcome::Blocks) {
                 if k - 1 >= first_of_last {
-                    return Some((order, k - 1));
+                    // the kernels take cell *identifiers*: when the transactions before it have
+                    // turned an argument into a dart that no longer names its edge (the edge now
+                    // has a smaller dart), the call is outside the kernels' contract — it looks
+                    // attributes up under a slot that is not an identifier
+                    let (t, i) = order[k - 1];
+                    let args_ok = match run_serial(scn.clone(), order[..k - 1].to_vec()) {
+                        SerialOutcome::Done(_, st) => {
+                            let pe = st.partition(1);
+                            scn.threads[t][i].ops.iter().all(|o| match o {
+                                crate::ops::Op::Swap { e } | crate::ops::Op::CutInner { e, .. } | crate::ops::Op::CutOuter { e, .. } | crate::ops::Op::Collapse { e } | crate::ops::Op::InsertVertex { e, .. } | crate::ops::Op::InsertVertices { e, .. } => {
+                                    (*e as usize) < st.n() && pe[*e as usize] == *e
+                                }
+                                _ => true,
+                            })
+                        }
+                        _ => false,
+                    };
+                    if args_ok {
+                        return Some((order, k - 1));
+                    }
                 }
                 break;
             }
